@@ -287,6 +287,37 @@ Definition ref_grad (g : pohg nat nat) (inp dy : list Z) : option (list Z) :=
       Some (List.app (map (zget mem) (p_outs g)) (map (fun v => nth v adj 0%Z) (p_ins g)))
   end.
 
+(* ---- expression interpreter for Var programs (oracle for the semantic clause of C19) ----
+   handles are numbered in creation order; a fresh variable holds its input value (0 when it is not an
+   input); an applied operator defines its result handles.  None = outside the clause's scope
+   (a result handle used as an input, a repeated input, an arity the signature does not have). *)
+Fixpoint denote_prog (prog : list (vcmd nat nat)) (ins : list nat) (inp : list Z)
+                     (env : list Z) (fresh : list bool) : option (list Z * list bool) :=
+  match prog with
+  | [] => Some (env, fresh)
+  | CNew _ _ :: rest =>
+      let h := List.length env in
+      let v := match index_of h ins with Some k => nth k inp 0%Z | None => 0%Z end in
+      denote_prog rest ins inp (List.app env [v]) (List.app fresh [true])
+  | CApply op args rts :: rest =>
+      if forallb (fun a => Nat.ltb a (List.length env)) args then
+        let outs := interp op (map (fun a => nth a env 0%Z) args) in
+        if Nat.eqb (List.length outs) (List.length rts)
+        then denote_prog rest ins inp (List.app env outs) (List.app fresh (map (fun _ => false) rts))
+        else None
+      else None
+  end.
+Definition denote (prog : list (vcmd nat nat)) (ins outs : list nat) (inp : list Z) : option (list Z) :=
+  match denote_prog prog ins inp [] [] with
+  | Some (env, fresh) =>
+      if Nat.eqb (List.length (nodup Nat.eq_dec ins)) (List.length ins) &&
+         forallb (fun h => nth h fresh false) ins &&
+         forallb (fun h => Nat.ltb h (List.length env)) outs &&
+         Nat.eqb (List.length inp) (List.length ins)
+      then Some (map (fun h => nth h env 0%Z) outs) else None
+  | None => None
+  end.
+
 Definition d_ok (x : sx) : option sx := match x with L [Sy "ok"; v] => Some v | _ => None end.
 Definition d_some (x : sx) : option sx := match x with L [Sy "some"; v] => Some v | _ => None end.
 
@@ -355,6 +386,21 @@ Definition spec_case (c impl : sx) : sx :=
             | _, _ => fail_v "eval-shape"
             end
         | _ => fail_v "eval-shape"
+        end
+      else if String.eqb op "var_eval" then
+        match args with
+        | [prog; ins; outs; inp] =>
+            match d_list d_vcmd prog, d_nats ins, d_nats outs, d_zs inp with
+            | Some prog', Some ins', Some outs', Some inp' =>
+                match denote prog' ins' outs' inp' with
+                | Some r =>
+                    if sx_eqb impl (e_res (e_opt e_zs) (Ok (Some r))) then (if exact then ok_v else fail_v "oracle-ok-but-differs-from-model")
+                    else fail_v "forget-of-built-term-does-not-evaluate-to-the-expression"
+                | None => if exact then ok_v else fail_v "differs-from-model"
+                end
+            | _, _, _, _ => fail_v "var_eval-shape"
+            end
+        | _ => fail_v "var_eval-shape"
         end
       else if String.eqb op "term_eval" then
         match args with
